@@ -33,9 +33,18 @@ def parse_rate(rec):
     if rec is None or rec.get("k") != "X":
         return None
     m = _DEC.findall(rec.get("repr", ""))
-    if len(m) != 2:
-        return None
-    out = dict(uc=rec["uc"], tc=rec["tc"], um=F(m[0][0]), ta=F(m[1][0]))
+    if len(m) == 2:
+        um, ta = F(m[0][0]), F(m[1][0])
+    elif (rec.get("um") or {}).get("k") == "N" and \
+            (rec.get("ta") or {}).get("k") == "N":
+        # repr in another format: the private attributes, if still there
+        um, ta = val(rec["um"]), val(rec["ta"])
+    else:
+        from ..cases import Unobservable
+        raise Unobservable("stored unit multiple and term amount of %s "
+                           "(neither its repr nor _unit_multiple / "
+                           "_term_amount can be read)" % rec.get("repr"))
+    out = dict(uc=rec["uc"], tc=rec["tc"], um=um, ta=ta)
     out["rate"] = val(rec["rate"]) if rec["rate"].get("k") == "N" else None
     out["inv"] = val(rec["inverse_rate"]) \
         if rec["inverse_rate"].get("k") == "N" else None
